@@ -13,8 +13,9 @@ from vp.framework import Violation, Inconclusive, VERIF
 RULE = ("(a) 'same': generated problems as C07 (mixed sources/receivers, "
         "six mappings x four anisotropy cases, NaN-masked data, all noise "
         "shapes), gridding='same', in memory or file based: jvec(v) equals "
-        "the central difference of data.synthetic of FRESH simulations along "
-        "v (steps 2e-2, 1e-2 with Richardson extrapolation), Re<w,Jv> = <J^T w,v> for random "
+        "the central difference, along v, of forward data obtained by DIRECT "
+        "solves of the checker-assembled operator (steps 2e-2, 1e-2 with "
+        "Richardson extrapolation), Re<w,Jv> = <J^T w,v> for random "
         "real v and complex w (w = 0 where there is no datum), and "
         "jtvec(residual*weights) = gradient of a fresh simulation.  (b) "
         "'gridding': a 16x8x8 model grid with generated heterogeneous "
@@ -26,7 +27,9 @@ RULE = ("(a) 'same': generated problems as C07 (mixed sources/receivers, "
 ASSUMPTIONS = [
     "solver tolerance 1e-11 ('same') / 1e-10 (automatic gridding); adjoint "
     "identity tolerance 1e-6 relative + 1e-7 ||w|| ||Jv|| (measured 1e-9..1e-12 of ||w|| ||Jv||), FD tolerance "
-    "1e-5 ||Jv|| after Richardson extrapolation (measured <= 3e-7)",
+    "1e-4 ||Jv|| after Richardson extrapolation of direct-solve data "
+    "(measured: median 1e-8, max 7e-6 - the accuracy of emg3d's own "
+    "iterative J v solve on ill-conditioned problems; mutants give >= 6e-2)",
     "data-space vectors w are zero where the observed datum is NaN (missing "
     "data are not part of the data space)",
 ]
@@ -115,22 +118,17 @@ def _case_same(spec, rec, fdir):
                         f"sources {spec['problem']['src']}, receivers "
                         f"{spec['problem']['rec']}")
     # (a) J v = derivative of the synthetic data
-    fds = []
-    for eps in (2e-2, 1e-2):
-        ds = []
-        for sgn in (1, -1):
-            s2 = fresh(simgen.perturbed_model(p, v, sgn*eps))
-            s2.compute()
-            if not simgen.all_converged(s2):
-                raise Inconclusive("perturbed solve did not converge")
-            ds.append(s2.data.synthetic.data.copy())
-        fds.append((ds[0]-ds[1])/(2*eps))
+    # forward data of the perturbed models from direct solves of the
+    # checker-assembled operator (no iteration noise), cf. simgen.direct_data
+    fds = [(simgen.direct_data(p, sim, v, eps) -
+            simgen.direct_data(p, sim, v, -eps))/(2*eps)
+           for eps in (2e-2, 1e-2)]
     # Richardson extrapolation removes the O(eps^2) term; what remains is
     # O(eps^4) truncation plus (solver tolerance)/eps.
     fd = (4*fds[1]-fds[0])/3
     m = np.isfinite(fd) & np.isfinite(jv)
     errs = [float(np.linalg.norm((f-jv)[m])/nv) for f in (fds[0], fds[1], fd)]
-    if errs[2] > 1e-5:
+    if errs[2] > 1e-4:
         raise Violation(f"jvec_not_derivative:{tag}",
                         f"||FD - Jv||/||Jv|| = {errs} for steps 2e-2, 1e-2 "
                         f"and their Richardson extrapolation; "
@@ -292,7 +290,7 @@ SUBS = {'same': case_same, 'gridding': case_gridding}
 
 def run(ctx):
     ctx.regression(SUBS)
-    ctx.explore('same', same_spec(), case_same, ctx.n(10, 30),
+    ctx.explore('same', same_spec(), case_same, ctx.n(24, 40),
                 shrink=not ctx.quick)
-    ctx.explore('gridding', gridding_spec(), case_gridding, ctx.n(10, 30),
+    ctx.explore('gridding', gridding_spec(), case_gridding, ctx.n(12, 30),
                 shrink=not ctx.quick)
